@@ -35,6 +35,7 @@ META["text"] += " R6 also: before the search the frontier holds [d, c] for every
 META["text"] += " R6 also: NENAssertion.subsumes holds iff every tail the other assertion rules out has one of this assertion's tails as a suffix (forall-exists)."
 META["text"] += ' R6 also: the search ranges over the contest and winner handed in (the parameters are not re-bound, the candidate list is not edited).'
 META["text"] += ' R3 also: the difficulty functions shipped with the search are finite for every strict win (inf only under an exact sign test of the margin, never under a tolerance).'
+META["text"] += ' R2 also: the RAIRE Contest stores its constructor arguments unconverted. R6 also: the harvest recognises duplicates by same_as and subsumes only.'
 
 
 def r3_estimates(chk):
@@ -548,6 +549,15 @@ def r6(chk):
     where = f"{RA}:compute_raire_assertions"
     sites = [c for c in ast.walk(fn) if isinstance(c, ast.Call) and isinstance(c.func, ast.Attribute) and c.func.attr in ("same_as", "subsumes")
              and len(c.args) == 1]
+    # what counts as "the same assertion" is decided by the assertion classes themselves (same_as: NEB and NEN never coincide,
+    # C04.R5) and "stronger" by subsumes: a harvest that recognises duplicates in some other way (a dict keyed by selected fields,
+    # a set of tuples) decides it anew -- and differently, e.g. for an NEB and a first-round NEN with the same pair
+    kinds = {c.func.attr for c in sites}
+    if kinds != {"same_as", "subsumes"}:
+        chk.ob("C04.R6", where, "duplicates-by-same_as-and-subsumes", False,
+               "the harvest discards an assertion only because an equivalent one (same_as) or a stronger one (subsumes) is kept",
+               node=fn, strength="N", calls=sorted(kinds))
+        return
     chk.need("C04.R6", len(sites), 2, "same_as / subsumes call sites in the harvest")
     for k, c in enumerate(sites):
         recv, arg = norm(c.func.value), norm(c.args[0])
